@@ -32,7 +32,8 @@ var _ Ranger = &intsRanger{}
 func (r *intsRanger) Range() (index, value reflect.Value, end bool) {
 	r.i++
 	r.val++
-	end = r.val == r.to
+	// >= and not ==: a ranger kept in a variable can be ranged over again after it is spent
+	end = r.val >= r.to
 
 	// The indirection in the ValueOf calls avoids an allocation versus
 	// using the concrete value of 'i' and 'val'. The downside is having
